@@ -1,6 +1,6 @@
 --------------------------- MODULE MC_Ledger_goalB ---------------------------
 EXTENDS MC_Ledger_t
-c_WANTED == {"wd_within_balance_over_total", "slash_multi_asset", "slash_pool_fully_unbonding_other_bonded",
+c_WANTED == {"wd_within_balance_over_total", "slash_multi_asset", "slash_pool_fully_unbonding_other_bonded", "slash_partial_pool_fully_unbonding_other_bonded",
              "nst_up", "nst_down_within_withdrawable", "nst_down_ends_inside_pending_records", "nst_down_reaches_shares",
              "nst_down_shares_two_operators", "nst_down_skips_zero_share_row", "und_second_pending_same_staker_asset"}
 =============================================================================
